@@ -19,6 +19,7 @@ types, ranges, ok/grade agreement (pinned ok excepted), one entry per input, ent
 """
 import copy
 import json
+import os
 import numbers
 import random
 import re
@@ -417,6 +418,54 @@ def position_oracle(case, run):
     return bad
 
 
+def sentinel_oracle(case, run):
+    """entries sit at their inputs, through grouping and nesting as well: when exactly one input is a text that no
+    answer of any (string-comparing) subgrader can match, the entry AT THAT POSITION must carry grade 0"""
+    spec, inp, out = case['spec'], case['input'], run.out
+    if spec['cls'] != 'ListGrader' or not isinstance(inp, list) or inp.count(G.Gen.SENTINEL) != 1:
+        return []
+    text = json.dumps(spec)
+    if any(t in text for t in ('TableGrader', 'accept_any', 'accept_nonempty')):
+        return []           # graders that may give credit to an arbitrary text
+    if not isinstance(out, dict) or not isinstance(out.get('input_list'), list) or len(out['input_list']) != len(inp):
+        return []
+    k = inp.index(G.Gen.SENTINEL)
+    e = out['input_list'][k]
+    if isinstance(e, dict) and e.get('grade_decimal') not in (0, None):
+        return [('position', 'input %d is unmatchable (%r) but input_list[%d] = %r' % (k, inp[k], k, e))]
+    return []
+
+
+def grid_cases():
+    """exhaustive small scopes, run on every tier and seed"""
+    cases = []
+    # A. StringGrader: answer credit x explicit ok x attempt credit x (match / no match)
+    for c in (0, 0.5, 1):
+        for ok in (None, True, False, 'partial', 'computed'):
+            for sched in (None, 0, 0.5, 1):
+                for x in ('a', 'z'):
+                    ans = {'expect': 'a', 'grade_decimal': c, 'msg': 'm'}
+                    if ok is not None:
+                        ans['ok'] = ok
+                    opts = {'answers': ans, 'wrong_msg': 'w'}
+                    if sched is not None:
+                        opts['attempt_based_credit'] = {'credit': ['const', [sched]]}
+                    cases.append({'kind': 'grid-string', 'spec': {'cls': 'StringGrader', 'opts': opts}, 'input': x,
+                                  'attempt': 2 if sched is not None else None, 'expect': None})
+    # B. FormulaGrader: comparer verdict x answer credit x failable_evals x attempt credit
+    for vi in range(len(G.VERDICTS)):
+        for c in (0, 0.5, 1):
+            for failable in (0, 1):
+                for sched in (None, 0.5):
+                    opts = {'answers': {'expect': {'comparer': {'fn': 'cmp_const_%d' % vi}, 'comparer_params': ['1']},
+                                        'grade_decimal': c, 'msg': 'am'}, 'samples': 2, 'failable_evals': failable}
+                    if sched is not None:
+                        opts['attempt_based_credit'] = {'credit': ['const', [sched]]}
+                    cases.append({'kind': 'grid-formula', 'spec': {'cls': 'FormulaGrader', 'opts': opts}, 'input': '1',
+                                  'attempt': 3 if sched is not None else None, 'expect': None})
+    return cases
+
+
 # ------------------------------------------------------------------------------------------------
 # case generation
 # ------------------------------------------------------------------------------------------------
@@ -486,8 +535,8 @@ def gen_cases(rng, counts, rounded_share=0.12):
     return cases
 
 
-QUICK = [('string', 110), ('table', 60), ('formula', 100), ('numerical', 40), ('matrix', 100), ('slist', 210),
-         ('interval', 100), ('list', 270), ('sum', 35)]
+QUICK = [('string', 130), ('table', 70), ('formula', 130), ('numerical', 50), ('matrix', 140), ('slist', 280),
+         ('interval', 130), ('list', 380), ('sum', 40)]
 THOROUGH = [('string', 1500), ('table', 800), ('formula', 1200), ('numerical', 500), ('matrix', 1200), ('slist', 3000),
             ('interval', 1200), ('list', 4000), ('sum', 300)]
 
@@ -547,7 +596,7 @@ def evaluate_case(case, seed, res, stats):
             if twin.build_error is None:
                 twin_log = twin.debuglog
                 stats['twins'] += 1
-        found = oracle(case, run, twin_log) + position_oracle(case, run)
+        found = oracle(case, run, twin_log) + position_oracle(case, run) + sentinel_oracle(case, run)
         res.oracle_evals += 1
         if isinstance(case['input'], list) and case['spec']['cls'] == 'SumGrader':
             stats['sum_multi_box_short_form'] += 1
@@ -569,7 +618,14 @@ def evaluate_case(case, seed, res, stats):
         res.boundary += 1
         return None
     try:
-        return case_term(case, run)
+        t = case_term(case, run)
+        if len(stats['samples']) < 6 and run.status == 'ret' and case['kind'] not in ('corpus', 'grid-string', 'grid-formula') \
+                and stats['calls'] % 97 == 5:
+            leafs, perms, bests = R.oracle_tables(run.rec)
+            stats['samples'].append({'grader': case['spec'], 'input': case['input'], 'attempt': case['attempt'],
+                                     'implementation_returned': repr(run.out)[:600],
+                                     'recorded_leaf_oracle_rows': leafs[:500], 'recorded_assignments': perms[:300]})
+        return t
     except (R.Unmodelled, ValueError) as e:
         stats['unmodelled'] += 1
         stats.setdefault('unmodelled_examples', [])
@@ -584,7 +640,7 @@ def run(ctx):
     res.rule = ('one case = (configuration, input, attempt); non-trivial when the call returned some positive grade or some '
                 'message; distinct by (class, configuration, input, attempt)')
     stats = {'calls': 0, 'returned': 0, 'raised': 0, 'timeouts': 0, 'invalid_config': 0, 'unmodelled': 0, 'twins': 0,
-             'sum_multi_box_short_form': 0, 'by_kind': {}, 'raise_kinds': {}, 'ok_hist': {}}
+             'sum_multi_box_short_form': 0, 'by_kind': {}, 'raise_kinds': {}, 'ok_hist': {}, 'samples': []}
     bad_ws = whitespace_table_ok()
     if bad_ws:
         res.disagreements.append({'kind': 'whitespace-table', 'code_points': bad_ws[:10]})
@@ -595,7 +651,7 @@ def run(ctx):
     else:
         counts = QUICK
     res.distribution_extra = {'scaled_comparer_results_recompute_ok': RECOMPUTE}
-    cases = [dict(c, kind='corpus') for c in CORPUS] + gen_cases(rng, counts)
+    cases = [dict(c, kind='corpus') for c in CORPUS] + grid_cases() + gen_cases(rng, counts)
     terms, metas = [], []
     for i, case in enumerate(cases):
         seed = (ctx['seed'] * 1000003 + i * 7 + 1) % (2 ** 31)
@@ -603,18 +659,19 @@ def run(ctx):
         if t is not None:
             terms.append(t)
             metas.append((case, seed))
-    res.distribution = {k: v for k, v in stats.items()}
+    res.distribution = {k: v for k, v in stats.items() if k != 'samples'}
     res.distribution.update(res.distribution_extra)
     res.distribution['ok_hist'] = dict(sorted(stats['ok_hist'].items(), key=lambda kv: -kv[1])[:12])
     if stats['sum_multi_box_short_form']:
         res.notes.append('observation (not raised): SumGrader returned the single-input form for %d multi-box submissions'
                          % stats['sum_multi_box_short_form'])
-    for case, seed in metas[:3] + metas[len(metas) // 2: len(metas) // 2 + 2]:
-        res.samples.append({'class': case['spec']['cls'], 'input': case['input'], 'attempt': case['attempt']})
+    res.samples += stats['samples']
+    for case, seed in metas[len(metas) // 2: len(metas) // 2 + 2]:
+        res.samples.append({'grader': case['spec'], 'input': case['input'], 'attempt': case['attempt']})
     # balance the shards by term size (debug logs make some cases a hundred times larger than others)
     order = sorted(range(len(terms)), key=lambda i: -len(terms[i]))
     order = [i for k in range(core.NPROC) for i in order[k::core.NPROC]]
-    n, failing, errors = core.eval_agreement('c01', HEADER, 'pipe_agree', [terms[i] for i in order],
+    n, failing, errors = core.eval_agreement('c01' + os.environ.get('VERIF_C01_TAG', ''), HEADER, 'pipe_agree', [terms[i] for i in order],
                                              shard=max(20, (len(terms) + core.NPROC - 1) // core.NPROC), case_type='pcase')
     res.programs += n
     res.corr_errors += errors
@@ -633,7 +690,8 @@ def replay(w):
     if run.status != 'ret':
         return False, 'the call raised %r' % (run.out,)
     twin = run_call(G.with_root(case['spec'], debug=True), case['input'], case['attempt'], case['expect'], w.get('call_seed', 1), record=False)
-    found = oracle(case, run, twin.debuglog if twin.build_error is None else None) + position_oracle(case, run)
+    found = (oracle(case, run, twin.debuglog if twin.build_error is None else None) + position_oracle(case, run)
+             + sentinel_oracle(case, run))
     hit = [f for f in found if f[0] == w['kind']]
     return bool(hit), 'grader %s, input %r, attempt %r -> %r ; oracle: %r' % (
         json.dumps(case['spec'], default=repr)[:300], case['input'], case['attempt'], run.out, hit[:2])
@@ -652,14 +710,17 @@ def classify_known(w, known):
 
 
 LEVEL_TEXT = ('Theorems over ALL grader trees (item, SingleList incl. nested, Interval, List incl. nested/grouped, Sum), all '
-              'answer structures, all inputs, attempts, debug logs and ALL leaf/assignment oracles: a returning call yields the '
-              'single form for item graders and overall_message + one entry per input for list graders; every grade is in [0,1]; '
-              'ok is grade_decimal_to_ok(grade) unless an author-pinned ok at full credit; attempt credit rescales and recomputes ok; '
-              'the result does not depend on the debug log when debug is off. The composition logic is proved in full; one leaf '
-              'clause is REFUTED on the unchanged code (partial-credit comparer result scaled by a zero-credit answer keeps '
-              "ok='partial' at grade 0) and the general theorem carries the matching side condition.")
-LEVEL_NOTE = ('Hand-written model tied by differential correspondence on recorded leaf outputs (messages compared by string '
-              'equality); exact rational arithmetic, float rounding guard-banded; leaf comparisons, Munkres and the choice among '
-              'answer lists are oracles (universally quantified in the theorems). No axioms.')
-TECHNIQUE = 'Coq proof (induction on fuel/lists, Q arithmetic with lra/nra) + vm_compute correspondence on recorded call trees + property oracle'
+              'answer structures, inputs, attempts, debug logs and ALL leaf/assignment/best-list oracles: a returning call yields the '
+              'single form for item graders and overall_message + exactly one entry per input for list graders (entry i of an ordered '
+              'list is the i-th subgrader\'s verdict on input i); every grade is in [0,1]; ok is grade_decimal_to_ok(grade) unless it '
+              'is an author pin at full credit; attempt credit rescales and recomputes ok; with debug off the result is independent of '
+              'the debug log and debug on changes only the top message. Result literals and grade_decimal_to_ok are regenerated from '
+              '/repo on every run (tie A). One leaf clause is REFUTED for the code as found (a partial-credit comparer result scaled '
+              "by a zero-credit answer keeps ok='partial' at grade 0): the general theorem carries the matching side condition and the "
+              'full statement is proved for the repaired scaling loop (the harness reads off the source which version is in force).')
+LEVEL_NOTE = ('Hand-written model tied by differential correspondence on recorded leaf outputs (messages by string equality, grades '
+              'within 1e-9, float rounding guard-banded) plus a fail-closed translator for the constant result literals; leaf '
+              'comparisons, Munkres and the choice among answer lists are oracles (universally quantified in the theorems, proved '
+              'correct in C03/C04/C16/C18, C06, C05). Closed under the global context (coqchk: no axioms).')
+TECHNIQUE = 'Coq proof (induction on the recursion budget and on lists, Q arithmetic with lra/nra) + source-to-Gallina translator for result literals + vm_compute correspondence on recorded call trees + property oracle'
 DESIGN_REF = 'DESIGN.md section 3, C01'
